@@ -388,6 +388,9 @@ func Generate(rng *rand.Rand, prop, tier string, gomaxprocs int) *Desc {
 			x.Stuck = nil // nothing may wait for a cancellation that only comes when the caller looks again
 		}
 		x.SlowEmit = emitters(p) > 0 && rng.Intn(3) == 0
+		if x.SlowEmit && x.CancelMode == CancelExternal && x.AtErr == 0 && rng.Intn(3) == 0 {
+			x.AtEmit, x.Stuck = true, nil
+		}
 		if prop == "C12" {
 			x.ShareErr = emitters(p) > 0 && rng.Intn(3) == 0
 		}
